@@ -154,6 +154,7 @@ enum { S_GET, S_ASYNC, S_BLOCK1, S_BLOCK2, S_OBSERVE, S_TCP, S_WS, S_N };
 static const char *sname[] = {"get", "async", "block1", "block2", "observe", "tcp", "ws"};
 static struct cs S;
 static int target_k, mut_index, mut_mode; /* mode 0: replace, 1: extra copy before the original */
+static int mut_sem;                        /* field-level rewrite of a well-formed message (see apply_sem) */
 static int dgrams_seen, stream_writes_seen;
 static int mutated, mut_malformed, mut_len;
 static int srv_calls_before, sends_before, resp_before;
@@ -205,6 +206,50 @@ apply_mut(uint8_t *buf, size_t n, int m) {
   return n + 60;
 }
 
+/* Field-level rewrite: the message stays well-formed, but says something else.  type {kept, CON, NON, ACK, RST} x code
+ * {kept, 0.00, 2.05, 2.31, 4.01, 4.08, 4.13, 5.03, 0.01} x token {kept, last byte changed, none, 8 x FF} x {options and
+ * payload kept, dropped}: what a confused or malicious peer can answer with a plausible message id. */
+static const uint8_t SEM_CODES[] = {0, 0x45, 0x5f, 0x81, 0x88, 0x8d, 0xa3, 0x01};
+#define SEM_N (5 * 9 * 4 * 2)
+static size_t
+apply_sem(uint8_t *buf, size_t n, int m) {
+  struct w_msg w;
+  if (!w_parse(buf, n, &w))
+    return n;
+  int ty = m % 5, co = m / 5 % 9, tk = m / 45 % 4, drop = m / 180;
+  int type = ty == 0 ? w.type : ty - 1;
+  int code = co == 0 ? w.code : SEM_CODES[co - 1];
+  uint8_t tok[8];
+  int tkl = w.tkl;
+  memcpy(tok, w.token, (size_t)w.tkl);
+  if (tk == 1) {
+    if (tkl)
+      tok[tkl - 1] ^= 0x5a;
+    else
+      tok[0] = 0x5a, tkl = 1;
+  } else if (tk == 2)
+    tkl = 0;
+  else if (tk == 3) {
+    memset(tok, 0xff, 8);
+    tkl = 8;
+  }
+  static struct w_buf o;
+  w_begin(&o, type, code, w.mid, tok, tkl);
+  if (!drop) {
+    for (int i = 0; i < w.nopts; i++)
+      w_opt_add(&o, w.opts[i].num, w.opts[i].val, w.opts[i].len);
+    if (w.payload_len)
+      w_payload(&o, w.payload, w.payload_len);
+  }
+  snprintf(mut_desc, sizeof mut_desc, "rewrite:type=%s,code=%s,token=%s,%s", ty == 0 ? "kept" : ty == 1 ? "CON" : ty == 2 ? "NON" : ty == 3 ? "ACK" : "RST",
+           co == 0 ? "kept" : co == 1 ? "0.00" : co == 2 ? "2.05" : co == 3 ? "2.31" : co == 4 ? "4.01" : co == 5 ? "4.08" : co == 6 ? "4.13" : co == 7 ? "5.03" : "0.01",
+           tk == 0 ? "kept" : tk == 1 ? "changed" : tk == 2 ? "none" : "8xFF", drop ? "options+payload dropped" : "options+payload kept");
+  if (o.n > n + 60)
+    return n;
+  memcpy(buf, o.b, o.n);
+  return o.n;
+}
+
 static void
 mutate_dgram(ns_dgram_t *d) {
   int k = dgrams_seen++;
@@ -213,13 +258,13 @@ mutate_dgram(ns_dgram_t *d) {
   mutated = 1;
   last_orig_len = d->len < sizeof last_orig ? d->len : sizeof last_orig;
   memcpy(last_orig, d->data, last_orig_len);
-  if (mut_index >= nmut(d->len)) {
+  if (mut_index >= (mut_sem ? SEM_N : nmut(d->len))) {
     mutated = 2; /* index beyond this message's mutation count: nothing to do */
     return;
   }
   uint8_t *nb = malloc(d->len + 64);
   memcpy(nb, d->data, d->len);
-  size_t nl = apply_mut(nb, d->len, mut_index);
+  size_t nl = mut_sem ? apply_sem(nb, d->len, mut_index) : apply_mut(nb, d->len, mut_index);
   struct w_msg m;
   mut_malformed = !w_parse(nb, nl, &m);
   mut_len = (int)nl;
@@ -383,6 +428,7 @@ struct bspace {
   int mode;
   int maxmut;  /* mutation slots per message */
   int loglevel;
+  int sem;     /* 1: field-level rewrites (type x code x token x options kept/dropped) instead of byte-level mutations */
 };
 
 static void
@@ -391,6 +437,7 @@ case_endpoint(uint64_t idx, void *arg) {
   target_k = (int)(idx / (uint64_t)sp->maxmut);
   mut_index = (int)(idx % (uint64_t)sp->maxmut);
   mut_mode = sp->mode;
+  mut_sem = sp->sem;
   dgrams_seen = stream_writes_seen = 0;
   mutated = 0;
   mut_malformed = 0;
@@ -877,7 +924,8 @@ main(int argc, char **argv) {
     nas++;
   }
   /* endpoint spaces: message counts from a fault-free dry run of each scenario (done in a child to keep main clean) */
-  struct bspace bs[32];
+  struct bspace bs[48];
+  memset(bs, 0, sizeof bs);
   int nbs = 0;
   static const int nmsg_guess[S_N] = {2, 4, 8, 8, 10, 6, 8};
   for (int scn = 0; scn < S_N; scn++)
@@ -893,6 +941,18 @@ main(int argc, char **argv) {
         bs[nbs].loglevel = ll;
         nbs++;
       }
+    }
+  /* (F) field-level rewrites of every datagram of the five UDP exchanges */
+  for (int scn = 0; scn < S_TCP; scn++)
+    for (int mode = 0; mode < 2; mode++) {
+      snprintf(bs[nbs].name, sizeof bs[nbs].name, "endpoint:%s:%s:rewrite", sname[scn], mode ? "extra" : "replace");
+      bs[nbs].scn = scn;
+      bs[nbs].mode = mode;
+      bs[nbs].nmsgs = nmsg_guess[scn];
+      bs[nbs].maxmut = SEM_N;
+      bs[nbs].loglevel = 0;
+      bs[nbs].sem = 1;
+      nbs++;
     }
   static struct dspace ds[12];
   int nds = 0;
@@ -984,7 +1044,7 @@ main(int argc, char **argv) {
   vx_ev_rule("(A) all byte strings of length <=2 (thorough 3) over 256 values and length 3..5 (thorough 6) over a 20-value boundary alphabet after 27 "
              "header variants (UDP TKL x code, TCP length forms, WS) through coap_pdu_parse + debug printer + all accessors; (B) every single-field "
              "mutation (every truncation, every byte -> 00/FF/+1/-1, every bit of the first 24 bytes, three appendices) of every message of 7 valid "
-             "exchanges (GET, async, Block1, Block2, observe, TCP, WebSocket) delivered instead of / in addition to the original, then a canary; every "
+             "exchanges (GET, async, Block1, Block2, observe, TCP, WebSocket) delivered instead of / in addition to the original, then a canary; (F) the same for every field-level rewrite of every datagram of the 5 UDP exchanges (type {kept,CON,NON,ACK,RST} x code {kept,0.00,2.05,2.31,4.01,4.08,4.13,5.03,0.01} x token {kept,changed,none,8xFF} x options+payload {kept,dropped}: well-formed messages that say something else); every "
              "mutation of 7 lone requests (one with Uri-Query values full of reserved characters) to an idle server (malformed => no handler, <=1 error/RST reply); (C) WebSocket close with a half received "
              "frame and pending bytes, all splits; (D) all sequences of 1..5 (thorough 6) well-formed Block1 and Q-Block1 PUT requests from one raw peer with "
              "block numbers in any order from 0..11 (length 5: 0..8, thorough 0..10; length 6: 0..8), with/without M=0 on the last one, with/without a "
